@@ -123,6 +123,72 @@ own grids: `Σ_p ⟨f_p, g_p⟩` (grids: `grids p = (n_p, t_p)`). -/
 def prodInner (P : ℕ) (n : ℕ → ℕ) (t : ℕ → ℕ → ℚ) (f g : ℕ → ℕ → ℚ) : ℚ :=
   ∑ p ∈ range P, inner (n p) (t p) (f p) (g p)
 
+/-! ## The pure bookkeeping of `_fit_covariance_multivariate` / `inverse_transform` as source-level
+parameters (target of the translator `harness/c04_translate.py` → `Generated/MfpcaBlocks.lean`) -/
+
+/-- What the source says, syntactically, about stacking, slicing and scaling. -/
+structure BlockConsts where
+  /-- `scores_normed = ξ / np.sqrt(len(ξ) - d)`: the `d`. -/
+  ddofNormed : ℕ
+  /-- `np.cov(ξ.T[, ddof=d])` (NumPy default `1`). -/
+  ddofCov : ℕ
+  /-- the Cholesky factors are transposed (`.T`) before the block assembly. -/
+  cholTransposed : Bool
+  /-- the Gram factor product is `C.T @ C` (`true`) rather than `C @ C.T`. -/
+  gramLeftTransposed : Bool
+  /-- the solver matrix is `gram @ cov` (`true`) rather than `cov @ gram`. -/
+  gramTimesCov : Bool
+  /-- `nb_eigenfunction_uni = [c]`: first entry of the list that is cumulated. -/
+  cumInit : ℕ
+  /-- `start = cum[idx + a]`. -/
+  startShift : ℕ
+  /-- `end = cum[idx + b]`. -/
+  endShift : ℕ
+  /-- the slice is taken on the rows of `weights` (`weights[start:end, :]`). -/
+  sliceRows : Bool
+  /-- the coefficients carry the factor `1 / np.sqrt(eigenvalues)`. -/
+  eigInvSqrt : Bool
+  /-- … and the factor `norm_factor = 1 / np.sqrt(diag(…))`. -/
+  normFactor : Bool
+  /-- `inverse_transform`: `np.sqrt(weight)` (`true`) or `weight` when normalising. -/
+  weightSqrt : Bool
+  /-- `inverse_transform`: the scale used when `normalize` is false is the literal `1`. -/
+  plainScaleOne : Bool
+deriving Repr, DecidableEq
+
+/-- `np.cumsum([c] + sizes)[k]`. -/
+def cumP (c : BlockConsts) (sizes : List ℕ) (k : ℕ) : ℕ := c.cumInit + (sizes.take k).sum
+
+/-- `(start, end)` of component `p` as the source computes them. -/
+def blockRangeP (c : BlockConsts) (sizes : List ℕ) (p : ℕ) : ℕ × ℕ :=
+  (cumP c sizes (p + c.startShift), cumP c sizes (p + c.endShift))
+
+/-- second moment with a general `ddof`. -/
+def secondMomentD (d N : ℕ) (ξ : ℕ → ℕ → ℚ) (j k : ℕ) : ℚ :=
+  (∑ i ∈ range N, ξ i j * ξ i k) / ((N : ℚ) - d)
+
+/-- The matrix handed to the solver, as the source orders and transposes the factors. -/
+def solverMatrixP (c : BlockConsts) (M N : ℕ) (U ξ : ℕ → ℕ → ℚ) : ℕ → ℕ → ℚ :=
+  let F := if c.cholTransposed then U else tr U
+  let G := if c.gramLeftTransposed then matMul M (tr F) F else matMul M F (tr F)
+  let Q := secondMomentD c.ddofCov N (center N ξ)
+  if c.gramTimesCov then matMul M G Q else matMul M Q G
+
+/-- Square of the divisor of the eigenfunction coefficients, as the source composes it. -/
+def rhoSqP (c : BlockConsts) (M N : ℕ) (ξ cvec : ℕ → ℕ → ℚ) (ν : ℕ → ℚ) (m : ℕ) : ℚ :=
+  (if c.eigInvSqrt then ν m else 1) *
+    (if c.normFactor then (∑ i ∈ range N, pace M ξ cvec i m * pace M ξ cvec i m) / ((N : ℚ) - c.ddofNormed) else 1)
+
+/-- Square of the back-scaling of `inverse_transform`. -/
+def backScaleSqP (c : BlockConsts) (normalize : Bool) (w : ℚ) : ℚ :=
+  if normalize then (if c.weightSqrt then w else w ^ 2) else (if c.plainScaleOne then 1 else w)
+
+/-- The constants of the hand-written model (`off`, `solverMatrix`, `rhoSq`, `inverseTransform` with `r² = weight`). -/
+def codedBlockConsts : BlockConsts :=
+  { ddofNormed := 1, ddofCov := 1, cholTransposed := true, gramLeftTransposed := true, gramTimesCov := true, cumInit := 0,
+    startShift := 0, endShift := 1, sliceRows := true, eigInvSqrt := true, normFactor := true, weightSqrt := true,
+    plainScaleOne := true }
+
 /-! ## Gram (inner-product) route: `_fit_inner_product_multivariate`, `_transform_innpro`,
 `_transform_numerical_integration_multivariate`
 
